@@ -25,6 +25,7 @@ EXPLANATION = (
   " (DEP-frame, body) as in C01;"
   " (MEMO-key) as in C03;"
   ' (FIN-hull) as in C02: the content interval of a one-region document is the hull of its element intervals;'
+  ' (CLONE-prune) the per-region clone leaves content out by region association only, never because of a specified style value that animation could change;'
 )
 RULE_TEXT = "per mutator call / mutating call argument, per copy_to variant x field, per early return, per module-level store"
 UNDECIDED = ["equality of cached and uncached results over all documents and times", "equality of repeated calls as values",
@@ -177,4 +178,6 @@ def run(ctx):
             "the rule still matches its positive fixture", "PUR no longer matches its positive fixture (rule broken)")
   shape.check_cache_keys(ctx, common.funcs(ctx, ["ttconv.isd"]))
   isdrules.check_body_frame(ctx)
+  ncp = isdrules.check_clone_pruning(ctx)
+  ctx.floor("CLONE-prune", "pruning guards of the per-region clone", ncp, 1)
   common.check_history_independence(ctx, common.CORE + common.WRITERS + common.ISD_FILTERS + ["ttconv.imsc.elements", "ttconv.imsc.attributes", "ttconv.imsc.style_properties"])
